@@ -679,7 +679,7 @@ func limitSel(all []ZM, o ZOpts) ZSel {
 		return ZSel{}
 	}
 	end := len(all)
-	if o.Count >= 0 && o.Offset+o.Count < end {
+	if o.Count >= 0 && o.Count < end-o.Offset { // (not Offset+Count < end: the sum overflows for counts near the maximum)
 		end = o.Offset + o.Count
 	}
 	return cut(all, o.Offset, end)
